@@ -864,3 +864,28 @@ Proof.
   pose proof (Forall2_nth _ _ _ [] [] j F2 ltac:(lia)) as R2.
   cbv beta in R1, R2. rewrite Heq in R1. rewrite R1 in R2. injection R2 as ->. reflexivity.
 Qed.
+(* ------------------------------------------------------------------ Dict / Tuple: shapes *)
+Lemma prep_dict_shape_lemma mdf nz fields items lead :
+  Forall (fun it => exists l, lookup (fst it) fields = Some l /\ supported mdf l lead (snd it)) items ->
+  exists ps, prep_dict mdf nz fields items = Some ps /\
+    Forall2 (fun it p => fst it = fst p /\ exists l, lookup (fst it) fields = Some l /\
+                         shp (snd p) = prod lead :: net_input_shape l) items ps.
+Proof.
+  induction 1 as [|[k t] items [l [Hl Hs]] _ [ps [Hps Hsh]]]; cbn [prep_dict].
+  - exists []. split; [reflexivity|constructor].
+  - cbn [fst snd] in *. rewrite Hl.
+    destruct (prep_shape_lemma mdf nz l lead t Hs) as [p [Hp Hshape]].
+    rewrite Hp, Hps. exists ((k, p) :: ps). split; [reflexivity|].
+    constructor; auto. cbn. split; auto. exists l. auto.
+Qed.
+
+Lemma prep_tuple_shape_lemma mdf nz members items lead :
+  Forall2 (fun l t => supported mdf l lead t) members items ->
+  exists ps, prep_tuple mdf nz members items = Some ps /\
+    Forall2 (fun l p => shp p = prod lead :: net_input_shape l) members ps.
+Proof.
+  induction 1 as [|l t members items Hs _ [ps [Hps Hsh]]]; cbn [prep_tuple].
+  - exists []. split; [reflexivity|constructor].
+  - destruct (prep_shape_lemma mdf nz l lead t Hs) as [p [Hp Hshape]].
+    rewrite Hp, Hps. exists (p :: ps). split; [reflexivity|]. constructor; auto.
+Qed.
